@@ -350,7 +350,7 @@ class FakeS3:
             last_seen: Optional[str] = None
             truncated = False
             for k in keys:
-                if len(contents) + len(commons) >= max(0, MaxKeys):
+                if len(contents) + len(commons) >= max(0, min(MaxKeys, self.page_size)):     # server-side cap (S3: 1000)
                     truncated = True
                     break
                 if Delimiter:
